@@ -6,6 +6,9 @@ from .sketchgen import mapspec, ulps
 from .core import Case, f2h, h2f, nextafter
 
 EPS = Fraction(1, 10**12)
+def _fl(x):
+    try: return float(x)
+    except (OverflowError, ValueError): return float('inf') if x > 0 else float('-inf')
 
 def specs_for(rng, n):
     out = []
@@ -34,7 +37,7 @@ def specs_for(rng, n):
         if rng.random() < 0.5:
             k = rng.choice(("log", "lin", "cub")); a = 10 ** rng.uniform(-6, math.log10(0.99))
             g0 = (1 + a) / (1 - a); g = g0 if k == "log" else g0 ** math.log(2) if k == "lin" else g0 ** (10 * math.log(2) / 7)
-            out.append("%s:g:%s:%s" % (k, f2h(g), f2h(rng.choice([0.0, 1.0, -7.5, rng.uniform(-1e4, 1e4), float(rng.randint(-10**6, 10**6))]))))
+            out.append("%s:g:%s:%s" % (k, f2h(g), f2h(rng.choice([0.0, 1.0, -7.5, rng.uniform(-1e4, 1e4), _fl(rng.randint(-10**6, 10**6))]))))
     return out
 
 def run(tier, seed):
@@ -132,7 +135,7 @@ def run(tier, seed):
         fails = []
         if s.split(":")[1] == "a":
             a0 = Fraction(h2f(s.split(":")[2]))
-            if acc is None or abs(acc - a0) > Fraction(1, 2 ** 50): fails.append(("reported accuracy %s differs from the configured %s" % (impl[1], float(a0)), None))
+            if acc is None or abs(acc - a0) > Fraction(1, 2 ** 50): fails.append(("reported accuracy %s differs from the configured %s" % (impl[1], _fl(a0)), None))
         prev = None
         for v, i in probes[s]:
             evals += 1
@@ -146,10 +149,10 @@ def run(tier, seed):
             slack = Fraction(16 * max(abs(f["off"]), abs(i), 1) * math.log(f["gamma"]) * 1.5) / 2 ** 52
             def cls(ex): return "index-float-precision" if EPS < ex <= slack else None
             err = abs(val - fv) / fv - acc; worst = max(worst, err) if err <= slack else worst
-            if err > EPS: fails.append(("Value(Index(v)) = %s is not within alpha of v = %r (index %d, excess %.3g)" % (float(val), v, i, float(err)), v, cls(err)))
-            if lo is None or lo == "inf" or lo * (1 - EPS) > fv: fails.append(("v = %r lies below LowerBound(%d) = %s" % (v, i, None if lo is None else float(lo)), v, None if lo in (None, "inf") else cls((lo - fv) / fv)))
+            if err > EPS: fails.append(("Value(Index(v)) = %s is not within alpha of v = %r (index %d, excess %.3g)" % (_fl(val), v, i, _fl(err)), v, cls(err)))
+            if lo is None or lo == "inf" or lo * (1 - EPS) > fv: fails.append(("v = %r lies below LowerBound(%d) = %s" % (v, i, None if lo is None else _fl(lo)), v, None if lo in (None, "inf") else cls((lo - fv) / fv)))
             if hi is None or (hi != "inf" and fv > hi * (1 + EPS)):      # +Inf is a valid upper bound for the last bin
-                fails.append(("v = %r lies above LowerBound(%d) = %s (the next bin's lower bound)" % (v, i + 1, hi if hi in (None, 'inf') else float(hi)), v, None if hi is None else cls((fv - hi) / fv)))
+                fails.append(("v = %r lies above LowerBound(%d) = %s (the next bin's lower bound)" % (v, i + 1, hi if hi in (None, 'inf') else _fl(hi)), v, None if hi is None else cls((fv - hi) / fv)))
         fails = [x if len(x) == 3 else (x[0], x[1], None) for x in fails]
         fails.sort(key=lambda x: x[2] is not None)          # unexplained failures first
         if any(k0 == "index-float-precision" for _, _, k0 in fails): kf_specs.append("%s (%d values)" % (s, sum(1 for x in fails if x[2] == "index-float-precision")))
@@ -163,7 +166,7 @@ def run(tier, seed):
                                  "log-uniform random values over the whole indexable range, every sampled binade boundary 2^k +-0..2 ulps, the implementation's LowerBound(i) of sampled bins +-0..3 ulps; "
                                  "exact-rational oracle: accuracy within alpha+1e-12, containment within 1e-12 relative, Index non-decreasing over the sorted points, int32, reported accuracy within 2^-50. "
                                  "every evaluated point is distinct",
-                         "worst_excess_over_alpha": float(worst), "mappings": len(resD),
+                         "worst_excess_over_alpha": _fl(worst), "mappings": len(resD),
                          "model_lines_compared_bit_for_bit": ncmp, "model_mismatches": nmis})
     rep.assumptions = ["eps_fp = eps_c = 1e-12 relative (DESIGN section 10)"]
     return rep.finish()
